@@ -79,7 +79,10 @@ JudgeState(st) ==
   (* proposer total stake / count used for election = sum over active proposer records *)
   Tag(st.propTotalUniverse = TotalStake(Rg, 1), "Inv.ProposerTotalIsSum") \o
   Tag(\A i \in Ids : (st.propDetail[i] # -1) = (Rg[i].present /\ Rg[i].type = 1 /\ ~Rg[i].abort), "Inv.ProposerSetIsActive") \o
-  Tag(\A i \in Ids : st.propDetail[i] # -1 => st.propDetail[i] = Rg[i].stake, "Inv.ProposerStakeAgrees")
+  Tag(\A i \in Ids : st.propDetail[i] # -1 => st.propDetail[i] = Rg[i].stake, "Inv.ProposerStakeAgrees") \o
+  (* an active proposer record counts for the election from its apply height on, not before *)
+  Tag(\A i \in Ids : st.propAtApplyHeight[i] # -1 => (st.propAtApplyHeight[i] = 1 /\ st.propBeforeApplyHeight[i] = 0),
+      "Inv.ProposerCountsFromApplyHeight")
 
 JudgeBlock(e) ==
   LET st  == e.state
